@@ -371,7 +371,10 @@ fn c17_request_credit_excludes_head_bytes() {
 }
 
 /// (not instantiated in any tier: polling the async_trait future does not finish within 900 s - also not for the states
-/// that await nothing, 3 and 5, measured again at 500 s; seeded change C17-f, which lives in wait_writable, is therefore not caught)
+/// that await nothing, 3 and 5, measured again at 500 s; seeded change C17-f, which lives in wait_writable, is therefore not caught.
+/// CBMC's own output shows symex descending through drop_glue::<Pin<Box<dyn Future<Output = io::Result<()>>>>> recursively -
+/// the drop glue of one boxed async_trait future fans out over every future type with that output, each of which owns
+/// such boxes again; allocating the boxes from a static arena (STUB `arena`) did not change that)
 /// wait_writable per state: immediate when the previous write only stopped at a framing boundary, delegated to the
 /// client-side sink inside a body, an error only where no response is in progress.
 fn wait_table<const KIND: usize, const FAKE: bool>() {
@@ -409,7 +412,7 @@ fn wait_table<const KIND: usize, const FAKE: bool>() {
 }
 
 /*@gen
-{"name": "c17_wait_writable_state{0}_fake{1}", "call": "wait_table::<{0}, {1}>()", "unwind": 12, "stubs": ["bytes", "bytesmut", "fmt", "nofree"], "core": false,
+{"name": "c17_wait_writable_state{0}_fake{1}", "call": "wait_table::<{0}, {1}>()", "unwind": 12, "stubs": ["bytes", "bytesmut", "fmt", "nofree", "arena"], "core": false,
  "bound": "state #{0} (0 Idle, 1 identity body, 2 chunk data, 3 chunk header, 4 chunk terminator, 5 waiting for the response head), framing-remainder flag {1}",
  "desc": "wait_writable succeeds in every body state and after a framing-only remainder, and consumes the flag",
  "encodes": ["http_forwarded_stream::ForwardedStreamSink::wait_writable"],
